@@ -194,7 +194,7 @@ def apply_model(ctx, repo, qual, must_clear):
     installs = []
     it = Interp(repo, max_depth=8)
     struct = Obj(None, {INSTALL: Native(lambda a, k: installs.append((a[0], bytes(a[1]) if isinstance(a[1], (bytes, bytearray)) else a[1])), INSTALL)}, name="struct")
-    me = Obj(fi.cls, {"struct": struct, "_struct": struct}, name="connection")
+    me = Obj(repo.instance_cls(fi.cls), {"struct": struct, "_struct": struct}, name="connection")
     h = Obj(None, {"changes": list(changes)}, name="partial-update-handler")
     n_extra = len(fi.node.args.args) - 2
     try:
